@@ -396,6 +396,17 @@ func (x *X) makeInput(op *Op, b *Built) (any, func()) {
 			keys = append(keys, p[0])
 		}
 		x.Faults["env_set"] += int64(len(keys))
+		if x.W != nil && x.W.P("env_shared") == 1 {
+			if x.envDP == nil {
+				x.envDP = zenv.NewDataProvider()
+			}
+			x.Faults["env_provider_reused"]++
+			return x.envDP, func() {
+				for _, k := range keys {
+					os.Unsetenv(k)
+				}
+			}
+		}
 		return zenv.NewDataProvider(), func() {
 			for _, k := range keys {
 				os.Unsetenv(k)
